@@ -1,13 +1,17 @@
 import NmlVerif.Proofs.Groups
+import NmlVerif.Proofs.GroupsGen
 set_option linter.unusedSimpArgs false
 set_option linter.unusedVariables false
 /-!
 # C14 — segment-group membership is the transitive closure; optimising never changes it
 
-Model: `NmlVerif.Groups` (`Model/Groups.lean`), tied to `Cell.get_all_segments_in_group`,
-`Cell.optimise_segment_group(s)` (`neuroml/nml/helper_methods.py` and the copy in `neuroml/nml/nml.py`) by the
-correspondence check `harness/props/c14.py` (generated cells, built in memory and after an XML round trip, real
-library vs `Drivers/C14.lean`).
+Model: `NmlVerif.Groups` (`Model/Groups.lean`), tied to `Cell.get_all_segments_in_group`, `Cell.get_segment_group`,
+`Cell.optimise_segment_group(s)` (`neuroml/nml/helper_methods.py` and the copy in `neuroml/nml/nml.py`)
+(1) by translation: `Gen/Groups.lean` is rewritten from the Python source on every run
+(`translators/groups_extract.py`) and the theorems `c14_gen_*` below prove the generated definitions equal to the
+model for all inputs; `c14_main` states the whole property on the generated definitions;
+(2) by the correspondence check `harness/props/c14.py` (generated cells, built in memory and after an XML round
+trip, real library vs `Drivers/C14.lean`).
 
 Vocabulary (`Proofs/Groups.lean`): `InCl c g s` — segment `s` is reachable from group `g` through members and,
 transitively, included groups (`lookup` = first group with that id, or the implicit `"all"`); `Acyclic c` — a rank
@@ -58,32 +62,106 @@ theorem c14_resolve_unknown (c : Cell) (f g : Nat) (hg : lookup c g = none) :
     · cases hg
     · rename_i hne; simp [hne]
 
-/-! ### optimising one group -/
+/-- **When it returns.** A resolution that returns has found every group it reached and has met no cycle: an
+    unknown include or a cycle anywhere below `g` makes it raise, never return a partial answer. -/
+theorem c14_resolve_returns_only_if (c : Cell) (f g : Nat) (l : List Nat) (h : resolve c f g = .ok l) :
+    ∀ k, Reach c g k → (lookup c k).isSome ∧ ∀ K, lookup c k = some K → ∀ j ∈ K.includes, ¬ Reach c j k := by
+  intro k hk
+  obtain ⟨f', r, _, hr⟩ := resolve_reach_ok c hk f l h
+  refine ⟨?_, fun K hK j hj => resolve_ok_no_back c f' f' (Nat.le_refl _) k r hr K hK j hj⟩
+  cases hl : lookup c k with
+  | some K => rfl
+  | none =>
+    cases f' with
+    | zero => simp [resolve] at hr
+    | succ f0 => rw [c14_resolve_unknown c f0 k hl] at hr; cases hr
 
-/-- **Preservation.** Optimising a group of an acyclic cell leaves the segment set of EVERY group unchanged. -/
-theorem c14_optimise_preserves (key : Nat → Nat) (c : Cell) (f g : Nat) (c' : Cell) (hac : Acyclic c)
+/-- **Exactly the closure, each once, on every acyclic cell**: closure, uniqueness and termination in one statement
+    (recursion depth allowed > number of groups; see `c14_depth_*` for an interpreter with a fixed limit). -/
+theorem c14_resolve_exact (c : Cell) (hac : Acyclic c) (hd : NoDangling c) (f g : Nat) (hf : c.groups.length < f)
+    (hg : (lookup c g).isSome) :
+    ∃ l, resolve c f g = .ok l ∧ (∀ s, s ∈ l ↔ InCl c g s) ∧ ((findG c.groups g).isSome ∨ c.segs.Nodup → l.Nodup) := by
+  obtain ⟨l, hl⟩ := c14_resolve_terminates c hac hd g hg
+  exact ⟨l, hl f hf, c14_resolve_closure c f g l (hl f hf)⟩
+
+/-! ### both kinds of argument and the flag `assume_all_means_all` -/
+
+/-- every recursive call, and the default call with a group id, is `resolve` -/
+theorem c14_resolve_arg_id (c : Cell) (f g : Nat) : resolveArg c f (.str g) true = resolve c f g :=
+  NmlVerif.Gen.Groups.resolveArg_str_true c f g
+
+/-- asking with the `SegmentGroup` object the id denotes gives the same answer as asking with the id -/
+theorem c14_resolve_arg_object (c : Cell) (f g : Nat) (G : Group) (aam : Bool) (hG : findG c.groups g = some G) :
+    resolveArg c f (.obj G) aam = resolve c f g := by
+  cases f with
+  | zero => rfl
+  | succ f => rw [resolve_succ, hG]; rfl
+
+/-- `assume_all_means_all=False`: a defined group (also one called `"all"`) resolves exactly as with the default;
+    only the *undefined* `"all"` changes, from "every segment of the morphology" to the error -/
+theorem c14_resolve_flag_false (c : Cell) (f g : Nat) :
+    resolveArg c (f+1) (.str g) false =
+      if (findG c.groups g).isSome then resolve c (f+1) g else .error .unknownGroup := by
+  rw [resolve_succ]
+  show (match findG c.groups g with
+    | none => if false && g == allId then Except.ok c.segs else Except.error Err.unknownGroup
+    | some G => G.includes.foldl (resStep (resolve c f)) (Except.ok (addNew [] G.members))) = _
+  cases findG c.groups g with
+  | none => simp
+  | some G => rfl
+
+/-- so whatever the flag and the kind of argument, an answer is the closure, each segment once -/
+theorem c14_resolve_arg_closure (c : Cell) (f : Nat) (a : Arg) (aam : Bool) (l : List Nat)
+    (h : resolveArg c f a aam = .ok l) :
+    match a with
+    | .str g => ∀ s, s ∈ l ↔ InCl c g s
+    | .obj G => ∀ s, s ∈ l ↔ s ∈ G.members ∨ ∃ i ∈ G.includes, InCl c i s := by
+  cases f with
+  | zero => cases h
+  | succ f =>
+    cases a with
+    | obj G =>
+      have h' : G.includes.foldl (accStep addNew (resolve c f)) (.ok (addNew [] G.members)) = .ok l := h
+      have ⟨h1, h2⟩ := fold_spec addNew mem_addNew (resolve c f) G.includes _ l h'
+      intro s
+      rw [h2 s]
+      constructor
+      · rintro (hm | ⟨i, hi, r, hr, hs⟩)
+        · exact Or.inl (by simpa [mem_addNew] using hm)
+        · exact Or.inr ⟨i, hi, (resolve_closure c f i r hr s).mp hs⟩
+      · rintro (hm | ⟨i, hi, hc⟩)
+        · exact Or.inl (by simpa [mem_addNew] using hm)
+        · obtain ⟨r, hr⟩ := h1 i hi
+          exact Or.inr ⟨i, hi, r, hr, (resolve_closure c f i r hr s).mpr hc⟩
+    | str g =>
+      cases aam with
+      | true => rw [c14_resolve_arg_id] at h; exact resolve_closure c (f+1) g l h
+      | false =>
+        rw [c14_resolve_flag_false] at h
+        split at h
+        · exact resolve_closure c (f+1) g l h
+        · cases h
+
+/-! ### optimising one group
+
+None of the three clauses below assumes an acyclic include graph: `optimise_segment_group` filters members only
+after it resolved every included group, and a resolution that returns has met no cycle
+(`c14_resolve_returns_only_if`); on a cyclic or dangling cell it raises instead (`c14_optimise_total` says it does not
+raise on well-formed cells). -/
+
+/-- **Preservation.** Whenever optimising a group returns, the segment set of EVERY group is unchanged. -/
+theorem c14_optimise_preserves (key : Nat → Nat) (c : Cell) (f g : Nat) (c' : Cell)
     (h : optimiseGroup key c f g = .ok c') : ∀ h s, InCl c' h s ↔ InCl c h s := by
-  obtain ⟨r, hr⟩ := hac
   obtain ⟨G, G', S⟩ := optimiseGroup_spec key c f g c' h
-  exact S.preserves (ranked_acyc_at hr g G S.hG)
+  exact S.preserves
 
 /-- the same on what the code reports: every group that resolved before still resolves, to the same set -/
-theorem c14_optimise_preserves_resolve (key : Nat → Nat) (c : Cell) (f g : Nat) (c' : Cell) (hac : Acyclic c)
+theorem c14_optimise_preserves_resolve (key : Nat → Nat) (c : Cell) (f g : Nat) (c' : Cell)
     (h : optimiseGroup key c f g = .ok c') (k : Nat) (l : List Nat) (hl : resolve c f k = .ok l) :
     ∃ l', resolve c' f k = .ok l' ∧ ∀ s, s ∈ l' ↔ s ∈ l := by
-  have hpres := c14_optimise_preserves key c f g c' hac h
+  have hpres := c14_optimise_preserves key c f g c' h
   obtain ⟨G, G', S⟩ := optimiseGroup_spec key c f g c' h
-  obtain ⟨l', hl'⟩ := resolve_ok_transfer c c'
-    (fun k K' hK' => by
-      obtain ⟨K, hK, hinc⟩ := S.lookup_shape k K' hK'
-      exact ⟨K, hK, fun i hi => (hinc i).mp hi⟩)
-    (fun k hk => by
-      cases hK : lookup c k with
-      | none => rw [hK] at hk; cases hk
-      | some K =>
-        obtain ⟨K', hK', _⟩ := S.lookup_shape' k K hK
-        rw [hK']; rfl)
-    f k l hl
+  obtain ⟨l', hl'⟩ := S.rewr.resolve_ok f k l hl
   refine ⟨l', hl', fun s => ?_⟩
   rw [resolve_closure c' f k l' hl' s, resolve_closure c f k l hl s]
   exact hpres k s
@@ -101,16 +179,14 @@ theorem c14_optimise_frame (key : Nat → Nat) (c : Cell) (f g : Nat) (c' : Cell
 
 /-- **Minimality.** After optimising, the group has no duplicate member, no duplicate include and no member that
     one of its included groups already supplies. -/
-theorem c14_optimise_minimal (key : Nat → Nat) (c : Cell) (f g : Nat) (c' : Cell) (hac : Acyclic c)
-    (h : optimiseGroup key c f g = .ok c') : Minimal c' g := by
-  obtain ⟨r, hr⟩ := hac
-  exact optimiseGroup_minimal key c f g c' h (ranked_acyc_at hr g)
+theorem c14_optimise_minimal (key : Nat → Nat) (c : Cell) (f g : Nat) (c' : Cell)
+    (h : optimiseGroup key c f g = .ok c') : Minimal c' g :=
+  optimiseGroup_minimal key c f g c' h
 
 /-- **Idempotence.** Optimising the same group again returns the same cell (same member and include *lists*). -/
-theorem c14_optimise_idempotent (key : Nat → Nat) (c : Cell) (f g : Nat) (c' : Cell) (hac : Acyclic c)
-    (h : optimiseGroup key c f g = .ok c') : optimiseGroup key c' f g = .ok c' := by
-  obtain ⟨r, hr⟩ := hac
-  exact optimiseGroup_settles key c f g c' h (ranked_acyc_at hr g)
+theorem c14_optimise_idempotent (key : Nat → Nat) (c : Cell) (f g : Nat) (c' : Cell)
+    (h : optimiseGroup key c f g = .ok c') : optimiseGroup key c' f g = .ok c' :=
+  optimiseGroup_settles key c f g c' h
 
 /-- optimising never breaks acyclicity or creates a dangling include -/
 theorem c14_optimise_wellformed (key : Nat → Nat) (c : Cell) (f g : Nat) (c' : Cell)
@@ -131,60 +207,57 @@ theorem c14_optimise_total (key : Nat → Nat) (c : Cell) (f g : Nat) (hac : Acy
 /-! ### optimising every group (`optimise_segment_groups`) -/
 
 /-- **Preservation, all groups.** -/
-theorem c14_optimiseAll_preserves (key : Nat → Nat) (c : Cell) (f : Nat) (c' : Cell) (hac : Acyclic c)
-    (h : optimiseAll key c f = .ok c') : ∀ h s, InCl c' h s ↔ InCl c h s := by
-  obtain ⟨r, hr⟩ := hac
-  have := foldOpt_inv key f r (fun c1 => ∀ h s, InCl c1 h s ↔ InCl c h s)
-    (fun c1 g c2 hr1 hp hopt h s => by
+theorem c14_optimiseAll_preserves (key : Nat → Nat) (c : Cell) (f : Nat) (c' : Cell)
+    (h : optimiseAll key c f = .ok c') : ∀ h s, InCl c' h s ↔ InCl c h s :=
+  foldOpt_inv key f (fun c1 => ∀ h s, InCl c1 h s ↔ InCl c h s)
+    (fun c1 g c2 hp hopt h s => by
       rw [← hp h s]
-      exact c14_optimise_preserves key c1 f g c2 ⟨r, hr1⟩ hopt h s)
-    (c.groups.map Group.id) c c' hr (fun _ _ => Iff.rfl) h
-  exact this.1
+      exact c14_optimise_preserves key c1 f g c2 hopt h s)
+    (c.groups.map Group.id) c c' (fun _ _ => Iff.rfl) h
 
-/-- the list of groups keeps its ids and the segments are untouched -/
-theorem c14_optimiseAll_frame (key : Nat → Nat) (c : Cell) (f : Nat) (c' : Cell) (hac : Acyclic c)
+/-- the list of groups keeps its ids, the segments are untouched, well-formedness is kept -/
+theorem c14_optimiseAll_frame (key : Nat → Nat) (c : Cell) (f : Nat) (c' : Cell)
     (h : optimiseAll key c f = .ok c') :
-    c'.segs = c.segs ∧ c'.groups.map (·.id) = c.groups.map (·.id) := by
-  obtain ⟨r, hr⟩ := hac
-  have := foldOpt_inv key f r (fun c1 => c1.segs = c.segs ∧ c1.groups.map (·.id) = c.groups.map (·.id))
-    (fun c1 g c2 _ hp hopt => by
+    c'.segs = c.segs ∧ c'.groups.map (·.id) = c.groups.map (·.id) ∧
+    (Acyclic c → Acyclic c') ∧ (NoDangling c → NoDangling c') :=
+  foldOpt_inv key f (fun c1 => c1.segs = c.segs ∧ c1.groups.map (·.id) = c.groups.map (·.id) ∧
+      (Acyclic c → Acyclic c1) ∧ (NoDangling c → NoDangling c1))
+    (fun c1 g c2 hp hopt => by
       obtain ⟨G, G', S⟩ := optimiseGroup_spec key c1 f g c2 hopt
-      exact ⟨S.segs.trans hp.1, S.ids.trans hp.2⟩)
-    (c.groups.map Group.id) c c' hr ⟨rfl, rfl⟩ h
-  exact this.1
+      have hw := c14_optimise_wellformed key c1 f g c2 hopt
+      exact ⟨S.segs.trans hp.1, S.ids.trans hp.2.1, fun ha => hw.1 (hp.2.2.1 ha), fun hd => hw.2 (hp.2.2.2 hd)⟩)
+    (c.groups.map Group.id) c c' ⟨rfl, rfl, id, id⟩ h
 
 /-- **Minimality, all groups**: every group the API can address (the first group of each id) ends up without
     duplicate members, without duplicate includes and without a member that an included group supplies. -/
-theorem c14_optimiseAll_minimal (key : Nat → Nat) (c : Cell) (f : Nat) (c' : Cell) (hac : Acyclic c)
+theorem c14_optimiseAll_minimal (key : Nat → Nat) (c : Cell) (f : Nat) (c' : Cell)
     (h : optimiseAll key c f = .ok c') : ∀ g, Minimal c' g := by
-  have hids := (c14_optimiseAll_frame key c f c' hac h).2
-  obtain ⟨r, hr⟩ := hac
-  have hfold := foldOpt_all key f r Minimal
-    (fun c1 g c2 hr1 hopt => optimiseGroup_minimal key c1 f g c2 hopt (ranked_acyc_at hr1 g))
-    (fun c1 g k c2 hr1 hm hopt => minimal_stable key c1 f g k c2 hm hopt (ranked_acyc_at hr1 k))
-    (c.groups.map Group.id) c c' hr h
+  have hids := (c14_optimiseAll_frame key c f c' h).2.1
+  have hfold := foldOpt_all key f Minimal
+    (fun c1 g c2 hopt => optimiseGroup_minimal key c1 f g c2 hopt)
+    (fun c1 g k c2 hm hopt => minimal_stable key c1 f g k c2 hm hopt)
+    (c.groups.map Group.id) c c' h
   intro g G hG
   have hm : g ∈ c.groups.map (·.id) := by rw [← hids]; exact findG_some_mem_ids hG
   exact hfold.2 g hm G hG
 
 /-- with distinct group ids this is every `<segmentGroup>` of the cell -/
-theorem c14_optimiseAll_minimal_every_group (key : Nat → Nat) (c : Cell) (f : Nat) (c' : Cell) (hac : Acyclic c)
+theorem c14_optimiseAll_minimal_every_group (key : Nat → Nat) (c : Cell) (f : Nat) (c' : Cell)
     (hnd : (c.groups.map (·.id)).Nodup) (h : optimiseAll key c f = .ok c') :
     ∀ G ∈ c'.groups, G.members.Nodup ∧ G.includes.Nodup ∧ ∀ m ∈ G.members, ∀ i ∈ G.includes, ¬ InCl c' i m := by
   intro G hG
-  have hids := (c14_optimiseAll_frame key c f c' hac h).2
+  have hids := (c14_optimiseAll_frame key c f c' h).2.1
   have hf := findG_of_mem_nodup c'.groups (by rw [hids]; exact hnd) G hG
-  exact c14_optimiseAll_minimal key c f c' hac h G.id G hf
+  exact c14_optimiseAll_minimal key c f c' h G.id G hf
 
 /-- **Idempotence, all groups**: a second `optimise_segment_groups()` returns the very same cell. -/
-theorem c14_optimiseAll_idempotent (key : Nat → Nat) (c : Cell) (f : Nat) (c' : Cell) (hac : Acyclic c)
+theorem c14_optimiseAll_idempotent (key : Nat → Nat) (c : Cell) (f : Nat) (c' : Cell)
     (h : optimiseAll key c f = .ok c') : optimiseAll key c' f = .ok c' := by
-  have hids := (c14_optimiseAll_frame key c f c' hac h).2
-  obtain ⟨r, hr⟩ := hac
-  have := foldOpt_all key f r (fun c1 g => Settled key c1 f g)
-    (fun c1 g c2 hr1 hopt => optimiseGroup_settles key c1 f g c2 hopt (ranked_acyc_at hr1 g))
-    (fun c1 g k c2 hr1 hs hopt => settled_stable key c1 f g k c2 hs hopt (ranked_acyc_at hr1 k))
-    (c.groups.map Group.id) c c' hr h
+  have hids := (c14_optimiseAll_frame key c f c' h).2.1
+  have := foldOpt_all key f (fun c1 g => Settled key c1 f g)
+    (fun c1 g c2 hopt => optimiseGroup_settles key c1 f g c2 hopt)
+    (fun c1 g k c2 hs hopt => settled_stable key c1 f g k c2 hs hopt)
+    (c.groups.map Group.id) c c' h
   unfold optimiseAll
   rw [hids]
   exact foldOpt_settled key f _ c' this.2
@@ -196,6 +269,111 @@ theorem c14_optimiseAll_total (key : Nat → Nat) (c : Cell) (f : Nat) (hac : Ac
   obtain ⟨r, hr, hb⟩ := noCycle_bounded_rank c ((acyclic_iff_noCycle c).mp hac)
   exact foldOpt_total key f r (fun g => by have := hb g; omega) (c.groups.map (·.id)) c hr hd
     (fun g hg => ⟨fun e => hne (e ▸ hg), hg⟩)
+
+/-! ### the translation of today's source equals the model (`Gen/Groups.lean` is rewritten from
+`neuroml/nml/nml.py` and `helper_methods.py` by `translators/groups_extract.py` on every run) -/
+
+open NmlVerif.Gen.Groups in
+/-- `Cell.get_all_segments_in_group`, as translated, is `resolveArg`: for every cell, argument, flag and depth -/
+theorem c14_gen_resolve (fuel : Nat) (c : Cell) (a : Arg) (aam : Bool) :
+    get_all_segments_in_group fuel c a aam = resolveArg c fuel a aam := gen_resolve fuel c a aam
+
+open NmlVerif.Gen.Groups in
+/-- `Cell.get_segment_group`, as translated, returns the position of the first group with the id (a non-empty
+    string), which is the group `findG` finds and `setGroup` replaces -/
+theorem c14_gen_get_segment_group (c : Cell) (g : Nat) :
+    (get_segment_group c g = if g = emptyId then .error .notFound else
+      match firstIdx c.groups g with
+      | some k => .ok k
+      | none => .error .notFound) ∧
+    (firstIdx c.groups g = none → findG c.groups g = none) ∧
+    (∀ k, firstIdx c.groups g = some k → findG c.groups g = some (grp c k) ∧
+      ∀ G', c.groups.set k G' = replaceFirst c.groups g G') :=
+  ⟨gen_get_segment_group c g, firstIdx_none c.groups g,
+   fun k hk => ⟨(firstIdx_some c.groups g k hk).1, fun G' => ((firstIdx_some c.groups g k hk).2 G').1⟩⟩
+
+open NmlVerif.Gen.Groups in
+/-- `Cell.optimise_segment_group`, as translated, is `optimiseGroup` -/
+theorem c14_gen_optimise_segment_group (key : Nat → Nat) (fuel : Nat) (c : Cell) (g : Nat) :
+    optimise_segment_group key fuel c g = optimiseGroup key c fuel g := gen_optimise_segment_group key fuel c g
+
+open NmlVerif.Gen.Groups in
+/-- `Cell.optimise_segment_groups`, as translated, is `optimiseAll` -/
+theorem c14_gen_optimise_segment_groups (key : Nat → Nat) (fuel : Nat) (c : Cell) :
+    optimise_segment_groups key fuel c = optimiseAll key c fuel := gen_optimise_segment_groups key fuel c
+
+open NmlVerif.Gen.Groups in
+/-- **C14, on the translated source, in one statement.** For every cell with an acyclic include graph (no dangling
+    include, no empty group id; any overlap, duplicates, number of includes; any tie-breaking sort key) and a recursion
+    depth allowed above the number of groups: (1) `get_all_segments_in_group` of every known group returns exactly the
+    segments reachable through members and, transitively, includes, each once; (2) `optimise_segment_groups()`
+    returns a cell in which the reachable set of EVERY group is what it was, every group is minimal (no duplicate
+    member, no duplicate include, no member supplied by an include), every group still resolves to the same set, and
+    (3) a second `optimise_segment_groups()` returns that same cell. -/
+theorem c14_main (key : Nat → Nat) (c : Cell) (f : Nat) (hac : Acyclic c) (hd : NoDangling c)
+    (hne : emptyId ∉ c.groups.map (·.id)) (hf : c.groups.length < f) :
+    (∀ g, (lookup c g).isSome → ∃ l, get_all_segments_in_group f c (.str g) true = .ok l ∧
+        (∀ s, s ∈ l ↔ InCl c g s) ∧ ((findG c.groups g).isSome ∨ c.segs.Nodup → l.Nodup)) ∧
+    ∃ c', optimise_segment_groups key f c = .ok c' ∧
+      (∀ h s, InCl c' h s ↔ InCl c h s) ∧
+      (∀ g, Minimal c' g) ∧
+      (∀ g l, get_all_segments_in_group f c (.str g) true = .ok l →
+        ∃ l', get_all_segments_in_group f c' (.str g) true = .ok l' ∧ ∀ s, s ∈ l' ↔ s ∈ l) ∧
+      optimise_segment_groups key f c' = .ok c' := by
+  simp only [c14_gen_resolve, c14_gen_optimise_segment_groups, c14_resolve_arg_id]
+  refine ⟨fun g hg => c14_resolve_exact c hac hd f g hf hg, ?_⟩
+  obtain ⟨c', hc'⟩ := c14_optimiseAll_total key c f hac hd hf hne
+  have hfr := c14_optimiseAll_frame key c f c' hc'
+  have hpres := c14_optimiseAll_preserves key c f c' hc'
+  refine ⟨c', hc', hpres, c14_optimiseAll_minimal key c f c' hc', ?_, c14_optimiseAll_idempotent key c f c' hc'⟩
+  intro g l hl
+  have hlen : c'.groups.length < f := by
+    have := congrArg List.length hfr.2.1
+    simp only [List.length_map] at this
+    omega
+  have hsome : (lookup c' g).isSome := by
+    have h1 := (c14_resolve_returns_only_if c f g l hl g (Reach.refl g)).1
+    -- same ids, same implicit `all`
+    unfold lookup at h1 ⊢
+    cases hG : findG c.groups g with
+    | some G =>
+      obtain ⟨G', hG'⟩ := findG_of_mem_ids (gs := c'.groups) (by rw [hfr.2.1]; exact findG_some_mem_ids hG)
+      rw [hG']; rfl
+    | none =>
+      rw [hG] at h1
+      cases hG' : findG c'.groups g with
+      | some G' => rfl
+      | none => simpa using h1
+  obtain ⟨l', hl', hcl', _⟩ := c14_resolve_exact c' (hfr.2.2.1 hac) (hfr.2.2.2 hd) f g hlen hsome
+  refine ⟨l', hl', fun s => ?_⟩
+  rw [hcl' s, resolve_closure c f g l hl s]
+  exact hpres g s
+
+/-! ### recursion depth: an interpreter with a fixed recursion limit (known finding `C14:recursion-limit`)
+
+The theorems above let the recursion go as deep as the cell has groups. CPython stops at `sys.getrecursionlimit()`
+frames (1000 by default): with a limit of `F` nested calls the full statement "every acyclic cell resolves" is
+false, whatever `F` is; what holds is the restriction to include chains shorter than `F`. -/
+
+/-- full statement for recursion limit `F` -/
+def c14_depth_full (F : Nat) : Prop :=
+  ∀ c : Cell, Acyclic c → NoDangling c → ∀ g, (lookup c g).isSome → ∃ l, resolve c F g = .ok l
+
+/-- what holds: groups whose include chains are shorter than the limit resolve, to the closure, each once -/
+theorem c14_depth_partial (F : Nat) (c : Cell) (r : Nat → Nat) (hr : Ranked c r) (hd : NoDangling c) (g : Nat)
+    (hg : (lookup c g).isSome) (hlt : r g < F) :
+    ∃ l, resolve c F g = .ok l ∧ (∀ s, s ∈ l ↔ InCl c g s) ∧ ((findG c.groups g).isSome ∨ c.segs.Nodup → l.Nodup) := by
+  obtain ⟨l, hl⟩ := resolve_total c r hr hd F g hlt hg
+  exact ⟨l, hl, c14_resolve_closure c F g l hl⟩
+
+/-- **witness**: whatever the limit `F`, the chain of `F+1` groups (acyclic, nothing dangling) does not resolve
+    within `F` nested calls: the real code raises `RecursionError` on it for `F` = its recursion limit -/
+theorem c14_depth_witness (F : Nat) : ¬ c14_depth_full F := by
+  intro h
+  obtain ⟨hac, hd, hs⟩ := chainCell_wellformed F
+  obtain ⟨l, hl⟩ := h (chainCell F) hac hd 2 hs
+  rw [chain_out_of_fuel F F 0 (by omega)] at hl
+  cases hl
 
 /-! ### the hypotheses are satisfiable: a non-trivial cell
 
@@ -223,6 +401,36 @@ example : optimiseAll (fun x => x) exCell 6 =
   decide
 example : optimiseGroup (fun x => x) ⟨[0, 1, 2], [⟨5, [0], []⟩, ⟨6, [1], []⟩, ⟨7, [0, 1, 2], [5, 6]⟩]⟩ 4 7 =
     .ok ⟨[0, 1, 2], [⟨5, [0], []⟩, ⟨6, [1], []⟩, ⟨7, [2], [5, 6]⟩]⟩ := by decide
+
+-- the hypotheses of `c14_main` / `c14_depth_partial` hold on `exCell` (depth allowed 6 > 5 groups; rank of group 10 is 3)
+example : Ranked exCell exRank ∧ exRank 10 < 4 := ⟨ranked_of_check exCell exRank (by decide), by decide⟩
+-- the translated source run on it (the generated definitions are executable)
+example : NmlVerif.Gen.Groups.get_all_segments_in_group 6 exCell (.str 10) true = .ok [3, 0, 1, 2, 4] := by decide
+example : NmlVerif.Gen.Groups.get_segment_group exCell 12 = .ok 2 ∧
+    NmlVerif.Gen.Groups.get_segment_group exCell emptyId = .error .notFound ∧
+    NmlVerif.Gen.Groups.get_segment_group exCell 99 = .error .notFound := by decide
+example : NmlVerif.Gen.Groups.optimise_segment_groups (fun x => x) 6 exCell =
+    .ok ⟨[0, 1, 2, 3, 4], [⟨10, [], [11, 12, 14]⟩, ⟨11, [0], [13]⟩, ⟨12, [1], []⟩, ⟨13, [3], []⟩, ⟨14, [], [0]⟩]⟩ := by
+  decide
+-- ties of the natural-sort key (`g1`/`g01`): includes 12 and 11 have the same key and keep their list order
+example : optimiseGroup (fun _ => 0) exCell 6 10 =
+    .ok ⟨[0, 1, 2, 3, 4], [⟨10, [], [12, 11, 14]⟩, ⟨11, [0], [13]⟩, ⟨12, [1, 1], []⟩, ⟨13, [3], []⟩, ⟨14, [4, 4], [0]⟩]⟩ := by
+  decide
+-- `assume_all_means_all=False`, the undefined "all" (id 0), a defined group, and asking with the object
+example : resolveArg exCell 6 (.str 0) true = .ok [0, 1, 2, 3, 4] ∧ resolveArg exCell 6 (.str 0) false = .error .unknownGroup ∧
+    resolveArg exCell 6 (.str 11) false = .ok [0, 3] ∧ resolveArg exCell 6 (.obj ⟨11, [0], [13]⟩) false = .ok [0, 3] ∧
+    resolveArg exCell 6 (.obj ⟨77, [2, 2], [13, 0]⟩) true = .ok [2, 3, 0, 1, 4] := by decide
+-- optimising returns on some cyclic cells too (5 ⊃ 6 ⊃ 5, group 5 has no member): the clauses hold there as well
+example : optimiseGroup (fun x => x) ⟨[0], [⟨5, [], [6, 6]⟩, ⟨6, [0], [5]⟩]⟩ 9 5 =
+    .ok ⟨[0], [⟨5, [], [6]⟩, ⟨6, [0], [5]⟩]⟩ ∧
+    optimiseGroup (fun x => x) ⟨[0], [⟨5, [], [6, 6]⟩, ⟨6, [0], [5]⟩]⟩ 9 6 = .error .outOfFuel := by decide
+-- the included groups are resolved in the cell whose group is ALREADY de-duplicated and sorted (`midCell`): with a
+-- cycle 2 ⊃ 4 ⊃ 2 and a dangling include below 3, the sorted order [3, 4] meets the unknown group first
+example : optimiseGroup (fun x => x) ⟨[0, 1], [⟨2, [0], [4, 3]⟩, ⟨4, [1], [2]⟩, ⟨3, [1], [99]⟩]⟩ 6 2 = .error .unknownGroup ∧
+    resolve ⟨[0, 1], [⟨2, [0], [4, 3]⟩, ⟨4, [1], [2]⟩, ⟨3, [1], [99]⟩]⟩ 6 4 = .error .outOfFuel := by decide
+-- recursion limit: the chain of 4 groups needs 4 nested calls
+example : resolve (chainCell 3) 3 2 = .error .outOfFuel ∧ resolve (chainCell 3) 4 2 = .ok [0] ∧
+    resolve (chainCell 3) 3 3 = .ok [0] := by decide
 
 /-! ### the two defects repaired in `optimise_segment_group` (fixes/C14-optimise-segment-group.patch)
 
